@@ -539,12 +539,19 @@ rt_pick_value(vh_rng *r, int type)
     static const double flts[] = { 0.0, -0.0, 1.5, -1.5, 100.0, -100.0, 100.5, 1e3, -1e3, 3.0e38, -3.0e38, 1e-30, 0.25 };
     RegisterValueU v;
     memset(&v, 0, sizeof v);
+    /* the ends of the normal range in both signs take turns with the picks from the table (no extra draws) */
+    static unsigned ext;
     if (type == REG_TYPE_FLOAT32) {
-        v.f32 = (float)flts[vh_below(r, sizeof flts / sizeof flts[0])];
+        static const float ends32[] = { FLT_MIN, -FLT_MIN, FLT_MAX, -FLT_MAX };
+        size_t k = (size_t)vh_below(r, sizeof flts / sizeof flts[0]);
+        v.f32 = (float)flts[k];
+        if (k >= 9 && k <= 11 && (ext++ & 1u))
+            v.f32 = ends32[(ext / 2) % 4];
     } else if (type == REG_TYPE_FLOAT64) {
+        static const double ends64[] = { 1e300, DBL_MIN, -DBL_MIN, DBL_MAX, -DBL_MAX, -1e300 };
         v.f64 = flts[vh_below(r, sizeof flts / sizeof flts[0])];
         if (vh_chance(r, 1, 6))
-            v.f64 = 1e300;
+            v.f64 = ends64[ext++ % 6];
     } else {
         uint64_t b = vh_chance(r, 3, 4) ? ints[vh_below(r, sizeof ints / sizeof ints[0])] : vh_rand(r);
         if (vh_chance(r, 1, 5))
